@@ -1,4 +1,4 @@
-from runner import CbmcUnit, Entry
+from runner import CbmcUnit, Entry, PathUnit, PathEntry
 
 
 def units(tier):
@@ -31,4 +31,8 @@ def units(tier):
                      assumptions=["allocation never fails (--no-malloc-may-fail)", "element types: uint8_t, int, 12-byte POD struct",
                                   "sizes <= %d, history length <= %d" % (nmax, steps)],
                      stubs=["operator new/delete = malloc/free (cbmc allocation model, ghost size table)",
-                            "std::runtime_error ctor/dtor: type tag only"])]
+                            "std::runtime_error ctor/dtor: type tag only"]),
+            PathUnit("arrays_path", "harness/C11_arrays.cpp", [
+                PathEntry("vp_main_fixed_vec_" + t, wall=600, desc="FixedArray<%s> constructed / assigned from std::vector (0..%d elements) and std::array, onto empty and non-empty targets: size, independent copy of every element, at(size()) throws, a copy keeps the contents alive" % (d, nmax))
+                for t, d in (("int", "int"), ("s12", "12-byte struct"), ("u8", "uint8_t"))],
+                defines=["NMAX=%d" % nmax, "STEPS=%d" % steps, "VP_PATH"], assumptions=["path engine (vp/llpath.py); symbolic element values, shapes enumerated"])]
